@@ -3,7 +3,7 @@
    on this file.  Each case is the byte string (packed, see the end of the file) of a forest of  tree ::= '(' tree* ')' | escaped-bytes ';'  with '~hh' hex escapes. *)
 From Coq Require Import String Ascii.
 From Coq Require Import List Bool ZArith NArith Arith Uint63.
-From Tally Require Import C05.Model.
+From Tally Require Import C05.Model C05.Csv.
 Import ListNotations.
 Open Scope N_scope.
 
@@ -80,11 +80,32 @@ Definition d_rline (t : tree) : option rline :=
   | Node [r; g] => r <~ d_bs r ;; g <~ d_opt (d_list (d_opt d_bs)) g ;; Some {| raw := r; groups := g |}
   | _ => None
   end.
+Fixpoint recs_eqb (a b : list (list bs)) : bool :=
+  match a, b with
+  | [], [] => true
+  | x :: r, y :: s => (fix leq (u v : list bs) : bool :=
+                         match u, v with [], [] => true | p :: u', q :: v' => bs_eqb p q && leq u' v' | _, _ => false end) x y
+                      && recs_eqb r s
+  | _, _ => false
+  end.
 Definition d_input (t : tree) : option input :=
   match t with
   | Node [k; a] =>
     if tag k =? 67 (* C *) then recs <~ d_list (d_list d_bs) a ;; Some (CsvIn recs)
     else if tag k =? 82 (* R *) then ls <~ d_list d_rline a ;; Some (RegexIn ls)
+    else None
+  | Node [k; dl; tx; lib] =>
+    (* F: the delimiter setting, the TEXT of the file and the records CPython's csv.reader made of it: the model
+       reads the text itself (C05/Csv.v) and must find the same records *)
+    if tag k =? 70 then
+      dl <~ d_opt d_bs dl ;; tx <~ d_bs tx ;; lib <~ d_list (d_list d_bs) lib ;;
+      match reader_of dl with
+      | RCsv d => match csv_records d tx with
+                  | Some recs => if recs_eqb recs lib then Some (CsvIn recs) else None
+                  | None => None
+                  end
+      | _ => None
+      end
     else None
   | _ => None
   end.
